@@ -7,6 +7,7 @@ def run(F, G, tier, seed):
     chk = Check("C20", tier, "other", seed)
     writer.run(chk, F)
     writer.run_escape(chk, F)
+    writer.run_attrorder(chk, F)
     return chk.finish(
         "Decides reader/writer agreement: every member the reading side fills is read by the writer and written under "
         "a label kind the reader accepts; endpoints, element multiplicity and order; output only through libxml2's "
